@@ -34,6 +34,8 @@ type loopInfo struct {
 	rangeX  ssa.Value
 	next    *ssa.Next  // map loops
 	index   *ssa.BinOp // slice loops: idx = phi + 1
+	iter    *ssa.Phi   // slice loops: the loop-carried counter
+	elemIdx ssa.Value  // slice loops: the value that indexes the slice in the body (idx, or the counter itself)
 	key     ssa.Value
 	val     ssa.Value
 	pos     token.Pos
@@ -101,6 +103,52 @@ func sliceLoopOf(idx *ssa.BinOp, x ssa.Value) *loopInfo {
 		return nil
 	}
 	l := &loopInfo{fn: idx.Parent(), kind: "slice", header: h, body0: h.Succs[0], rangeX: x, index: idx, key: idx, pos: idx.Pos(), blocks: map[*ssa.BasicBlock]bool{}}
+	l.iter, _ = idx.X.(*ssa.Phi)
+	l.elemIdx = idx
+	for _, b := range l.fn.Blocks {
+		if l.body0.Dominates(b) {
+			l.blocks[b] = true
+		}
+	}
+	return l
+}
+
+// sliceLoopOfCounter recognises the hand-written form of the same loop: for i := 0; i < len(x); i++ { … x[i] … }.
+func sliceLoopOfCounter(p *ssa.Phi, x ssa.Value) *loopInfo {
+	if len(p.Edges) != 2 {
+		return nil
+	}
+	var step *ssa.BinOp
+	zero := false
+	for _, e := range p.Edges {
+		switch v := e.(type) {
+		case *ssa.Const:
+			zero = v.Value != nil && v.Int64() == 0
+		case *ssa.BinOp:
+			if v.Op == token.ADD && v.X == ssa.Value(p) {
+				if k, ok := v.Y.(*ssa.Const); ok && k.Value != nil && k.Int64() == 1 {
+					step = v
+				}
+			}
+		}
+	}
+	h := p.Block()
+	i := core.BlockIf(h)
+	if !zero || step == nil || i == nil {
+		return nil
+	}
+	cmp, ok := i.Cond.(*ssa.BinOp)
+	if !ok || cmp.Op != token.LSS || cmp.X != ssa.Value(p) {
+		return nil
+	}
+	lc, ok := cmp.Y.(*ssa.Call)
+	if !ok {
+		return nil
+	}
+	if b, isB := lc.Call.Value.(*ssa.Builtin); !isB || b.Name() != "len" || lc.Call.Args[0] != x {
+		return nil
+	}
+	l := &loopInfo{fn: p.Parent(), kind: "slice", header: h, body0: h.Succs[0], rangeX: x, index: step, iter: p, elemIdx: p, key: p, pos: p.Pos(), blocks: map[*ssa.BasicBlock]bool{}}
 	for _, b := range l.fn.Blocks {
 		if l.body0.Dominates(b) {
 			l.blocks[b] = true
@@ -145,7 +193,7 @@ func (oc *orderChecker) derived(l *loopInfo, v ssa.Value, depth int) int {
 	if l.kind == "slice" {
 		// element of the ranged slice: treated like the key (duplicates give identical key and value)
 		if u, ok := v.(*ssa.UnOp); ok && u.Op == token.MUL {
-			if ia, ok := u.X.(*ssa.IndexAddr); ok && ia.X == l.rangeX && ia.Index == ssa.Value(l.index) {
+			if ia, ok := u.X.(*ssa.IndexAddr); ok && ia.X == l.rangeX && ia.Index == l.elemIdx {
 				return 2
 			}
 		}
@@ -292,6 +340,36 @@ func (oc *orderChecker) injectiveMap(m ssa.Value) bool {
 	return res
 }
 
+// sameElementLoad: a and b are two loads of the same element s[i] (same slice value, same index value): without
+// common subexpression elimination `m[f(s[i])] = s[i]` reads the element twice.
+func sameElementLoad(a, b ssa.Value) bool {
+	la, ok1 := a.(*ssa.UnOp)
+	lb, ok2 := b.(*ssa.UnOp)
+	if !ok1 || !ok2 || la.Op != token.MUL || lb.Op != token.MUL {
+		return false
+	}
+	ia, ok1 := la.X.(*ssa.IndexAddr)
+	ib, ok2 := lb.X.(*ssa.IndexAddr)
+	if !ok1 || !ok2 || ia.X != ib.X || ia.Index != ib.Index {
+		return false
+	}
+	// the slice is a parameter that the function only reads
+	prm, ok := ia.X.(*ssa.Parameter)
+	if !ok {
+		return false
+	}
+	for _, r := range *prm.Referrers() {
+		if x, ok := r.(*ssa.IndexAddr); ok {
+			for _, rr := range *x.Referrers() {
+				if st, ok := rr.(*ssa.Store); ok && st.Addr == ssa.Value(x) {
+					return false
+				}
+			}
+		}
+	}
+	return true
+}
+
 // pureFunctionOf: k is computed from v, constants and values that do not
 // change while the builder loop runs (defined outside any loop: approximated
 // by "not a phi and not a memory read").
@@ -299,7 +377,7 @@ func pureFunctionOf(k, v ssa.Value, depth int) bool {
 	if depth > 8 {
 		return false
 	}
-	if k == v {
+	if k == v || sameElementLoad(k, v) {
 		return true
 	}
 	switch x := k.(type) {
@@ -502,7 +580,7 @@ func (oc *orderChecker) checkLoop(l *loopInfo) []string {
 		if !ok {
 			continue
 		}
-		if l.kind == "slice" && ssa.Value(phi) == l.index.X {
+		if l.kind == "slice" && phi == l.iter {
 			continue // the iterator itself
 		}
 		switch oc.carriedKind(l, phi) {
@@ -1149,10 +1227,12 @@ func (oc *orderChecker) checkUnorderedUses(v ssa.Value, producer *loopInfo, what
 					fail("a sub-slice of it is taken")
 				}
 			case *ssa.IndexAddr:
-				idx, ok := x.Index.(*ssa.BinOp)
 				var sl *loopInfo
-				if ok {
+				switch idx := x.Index.(type) {
+				case *ssa.BinOp:
 					sl = sliceLoopOf(idx, v)
+				case *ssa.Phi:
+					sl = sliceLoopOfCounter(idx, v)
 				}
 				if sl == nil {
 					fail("an element is picked by position")
